@@ -35,7 +35,13 @@ Pfx     == [i \in 1 .. PrefixLen |-> "a"]
 NtIndex(A) == CHOOSE i \in 1 .. Len(NTS) : NTS[i] = A
 Later(i) == { NTS[j] : j \in (i + 1) .. Len(NTS) }
 ChainPool(i) == {<<>>} \cup { <<t>> : t \in TERMS } \cup { <<N>> : N \in Later(i) } \cup { <<N, t>> : N \in Later(i), t \in TERMS }
-AltPool == IF Pool = "terms" THEN { Pfx \o t : t \in UNION { [1 .. n -> TERMS] : n \in 0 .. MaxLen } }     \* terminals only
+(* "rep": as "chain", plus a later symbol repeated around a terminal (N N t, N t N), two different later symbols, and *)
+(* a later symbol followed by the symbol itself (right recursion behind it)                                         *)
+RepPool(i) == ChainPool(i) \cup { <<N, NTS[i]>> : N \in Later(i) }
+              \cup { <<N, N, t>> : N \in Later(i), t \in TERMS } \cup { <<N, t, N>> : N \in Later(i), t \in TERMS }
+              \cup { <<N, M>> : N \in Later(i), M \in Later(i) }
+AltPool == IF Pool = "rep" THEN UNION { RepPool(i) : i \in 1 .. Len(NTS) }
+           ELSE IF Pool = "terms" THEN { Pfx \o t : t \in UNION { [1 .. n -> TERMS] : n \in 0 .. MaxLen } }     \* terminals only
            ELSE IF Pool = "chain" THEN UNION { ChainPool(i) : i \in 1 .. Len(NTS) }
            ELSE IF Pool = "nts"
              THEN {<<>>} \cup { <<t>> : t \in TERMS } \cup UNION { [1 .. n -> NtSet] : n \in 2 .. MaxLen }
@@ -53,6 +59,7 @@ AddAlt(alt) ==
   /\ phase = "build" /\ Len(prods[cur]) < MaxAlts
   /\ (prods[cur] # <<>> => prods[cur][Len(prods[cur])] # alt)
   /\ (Pool = "chain" => alt \in ChainPool(cur))
+  /\ (Pool = "rep" => alt \in RepPool(cur))
   /\ (Pool = "nts" /\ Len(alt) > 1 =>               \* one sequence of non-terminals in the whole grammar
          \A j \in 1 .. Len(NTS) : \A i \in 1 .. Len(prods[j]) : Len(prods[j][i]) <= 1)
   /\ prods' = [prods EXCEPT ![cur] = Append(@, alt)]
@@ -66,7 +73,7 @@ Grammar(s) == [nts |-> NtSet, terms |-> TERMS, start |-> s,
 
 Finish(s) ==
   /\ phase = "build" /\ cur = Len(NTS) /\ prods[cur] # <<>>
-  /\ (Pool = "chain" => s = NTS[1])
+  /\ (Pool \in {"chain", "rep"} => s = NTS[1])
   /\ start' = s /\ phase' = "done"
   /\ LET G == Grammar(s) IN
        Emit => PrintT(ToJson([start   |-> s,
